@@ -14,6 +14,10 @@ package didweb
 //@ func mime.ParseMediaType
 //@   trusted
 //@   benign
+//@ func (*url.URL).JoinPath
+//@   trusted
+//@   benign
+//@   ensures result != nil
 //@ func io.ReadAll
 //@   trusted
 //@   benign
@@ -48,7 +52,11 @@ package didweb
 //@        && isNilIface(ret(call DIDToURL #1).1) && same(arg(call DIDToURL #1, 0), id)
 //@        && isNilIface(ret(call http.NewRequest #1).1) && arg(1) == ret(call http.NewRequest #1).0
 //@        && arg(call http.NewRequest #1, 0) == "GET" && arg(call http.NewRequest #1, 1) == ret(call (*url.URL).String #1)
-//@        && arg(call (*url.URL).String #1, 0) == ret(call DIDToURL #1).0 && isNilIface(arg(call http.NewRequest #1, 2))
+//@        && isNilIface(arg(call http.NewRequest #1, 2))
+//@        && arg(call (*url.URL).String #1, 0) == ret(call (*url.URL).JoinPath #2) && len(arg(call (*url.URL).JoinPath #2, 1)) == 1 && arg(call (*url.URL).JoinPath #2, 1)[0] == "did.json"
+//@        && ( arg(call (*url.URL).JoinPath #2, 0) == ret(call DIDToURL #1).0
+//@             || (len(ret(call DIDToURL #1).0.Path) == 0 && arg(call (*url.URL).JoinPath #2, 0) == ret(call (*url.URL).JoinPath #1) && arg(call (*url.URL).JoinPath #1, 0) == ret(call DIDToURL #1).0
+//@                 && len(arg(call (*url.URL).JoinPath #1, 1)) == 1 && arg(call (*url.URL).JoinPath #1, 1)[0] == ".well-known") )
 //@   ensures [parsed-behind-the-null-entry-screen] isNilIface(result.2) ==> did(call resolver.UnmarshalDocument #1) && isNilIface(ret(call resolver.UnmarshalDocument #1))
 //@        && arg(call resolver.UnmarshalDocument #1, 0) == ret(call io.ReadAll #1).0 && arg(call resolver.UnmarshalDocument #1, 1) == result.0
 //@   ensures [document-id-is-the-did-asked-for] isNilIface(result.2) ==> result.0 != nil && ret(call (did.DID).Equals #1) == true
